@@ -353,9 +353,19 @@ def gen_for(prop, rng, n):
     return hs
 
 
-def run_property(ctx, prop, n_quick, n_thorough, extra=None, assumptions=None):
+def run_property(ctx, prop, n_quick, n_thorough, extra=None, assumptions=None, extra_prop_files=()):
     rng = random.Random(ctx.seed * 1000003 + int(prop[1:]))
     info = C.prologue(ctx)
+    for pf in extra_prop_files:
+        # further files of theorems that belong to this property: their obligations are added
+        pok, names, plog = C.coq_check_property_file(pf)
+        closed, axioms = C.parse_assumptions(plog)
+        info["prop_ok"] = info["prop_ok"] and pok
+        info["theorems"] = info["theorems"] + names
+        info["closed"] += closed
+        info["axioms"] = info["axioms"] + axioms
+        if not pok:
+            info["prop_log"] = info.get("prop_log", "") + plog[-2000:]
     if info["hbin"] is None:
         raise RuntimeError("harness build failed:\n" + info.get("go_log", ""))
     fam = FamilyRun(ctx, info, prop)
